@@ -891,6 +891,66 @@ func srvGoneClient(o *common.Out, id string, pool, wt bool, style string) {
 	o.ImplOnly(id, abstract, true)
 }
 
+// srvRefusedThenAuth: on one connection, a request the rate limiter turns away (answered, connection kept), possibly an
+// ordinary request, then a request that fails authentication: it is answered with the authentication error, no handler
+// runs for it, and the connection is closed - whatever was refused on it before.  Oracle only.
+// case: refauth|<one-way>|<ordinary request in between>
+func srvRefusedThenAuth(o *common.Out, id string, ow, between bool) {
+	abstract := fmt.Sprintf("refauth|%v|%v", ow, between)
+	o.Begin(id, abstract)
+	o.Count("refused-then-failed-authentication")
+	rig := newSrvRig(false)
+	rig.start()
+	defer rig.stop()
+	peer, err := rig.connect()
+	if err != nil {
+		o.Fail(id, "rig", err.Error(), abstract)
+		return
+	}
+	defer peer.close()
+	body := func(rid int) []byte {
+		b, _ := json.Marshal(map[string]interface{}{"Id": rid, "A": 3, "B": 4, "Mode": "ok", "Text": ""})
+		return b
+	}
+	want := func(seq uint64, what string) *refcodec.Frame {
+		f := peer.next(3 * time.Second)
+		if f == nil || binary.BigEndian.Uint64(f.Header[4:]) != seq {
+			o.Fail(id, "no-response", what+": not answered", abstract)
+			return nil
+		}
+		return f
+	}
+	peer.send(reqSpec{seq: 51, path: "Arith", method: "Mul", ser: 1, oneway: ow, payload: body(0),
+		meta: []refcodec.KV{{K: []byte("x-limit"), V: []byte("1")}, {K: []byte("rid"), V: []byte("0")}}})
+	if !ow && want(51, "the rate-limited request") == nil {
+		return
+	}
+	if between {
+		peer.send(reqSpec{seq: 52, path: "Arith", method: "Mul", ser: 1, payload: body(1), meta: []refcodec.KV{{K: []byte("rid"), V: []byte("1")}}})
+		if want(52, "the ordinary request") == nil {
+			return
+		}
+	}
+	invoked := func() int { rig.h.mu.Lock(); defer rig.h.mu.Unlock(); return len(rig.h.invoked) }
+	before := invoked()
+	peer.send(reqSpec{seq: 53, path: "Arith", method: "Mul", ser: 1, payload: body(2),
+		meta: []refcodec.KV{{K: []byte(share.AuthKey), V: []byte("deny")}, {K: []byte("rid"), V: []byte("2")}}})
+	if f := want(53, "the request that failed authentication"); f == nil {
+		return
+	} else if f.Header[2]&0x03 != 1 {
+		o.Fail(id, "result-for-rejected", "a request that failed authentication was answered with a result", abstract)
+	}
+	select {
+	case <-peer.closed:
+	case <-time.After(3 * time.Second):
+		o.Fail(id, "auth-failure-not-closed", "the connection stayed open after a request on it failed authentication (an earlier request on it had been turned away by the rate limiter)", abstract)
+	}
+	if n := invoked() - before; n != 0 {
+		o.Fail(id, "handler-reached", fmt.Sprintf("%d handler(s) ran for a request that failed authentication", n), abstract)
+	}
+	o.ImplOnly(id, abstract, true)
+}
+
 func srvAsyncWrite(o *common.Out, id string, pool bool, style string) {
 	abstract := fmt.Sprintf("async|%v|%s", pool, style)
 	o.Begin(id, abstract)
@@ -1248,6 +1308,20 @@ func runSrv(prop string, r *common.Rand, tier string, o *common.Out, replay stri
 		p := strings.Split(replay, "|")
 		srvAsyncWrite(o, "replay", p[1] == "true", p[2])
 		return
+	}
+	if strings.HasPrefix(replay, "refauth|") {
+		p := strings.Split(replay, "|")
+		srvRefusedThenAuth(o, "replay", p[1] == "true", p[2] == "true")
+		return
+	}
+	if replay == "" && prop == "C04" {
+		k := 0
+		for _, ow := range []bool{false, true} {
+			for _, between := range []bool{false, true} {
+				k++
+				srvRefusedThenAuth(o, fmt.Sprintf("refauth%d", k), ow, between)
+			}
+		}
 	}
 	if strings.HasPrefix(replay, "gone|") {
 		p := strings.Split(replay, "|")
